@@ -5,6 +5,9 @@ mod common;
 
 fuzz_target!(|data: &[u8]| {
     if let Ok(text) = std::str::from_utf8(data) {
+        if !common::nesting_in_scope(text) {
+            return;
+        }
         let _ = text.to_string().tokenise();
         let v = common::rule_with(text, "f1", serde_yaml::Value::String("a".into()));
         if let Ok(rule) = tau_engine::Rule::from_value(v) {
